@@ -30,9 +30,8 @@ Lemma nin_ufix128 x : n_in_range NUFix128 x <-> 0 <= x <= 3402823669209384634633
 Proof. unfold n_in_range; simpl. tauto. Qed.
 
 (* The inputs on which the code departs from the property (without rounding rule):
-     Fix128 -> integer kinds       negative value with a fractional part (floor instead of truncation)
-     Fix128 -> Fix64               negative value with digits below 10^-8 (floor), or a value strictly between
-                                   Fix64.max and Fix64.max + 10^-8 (range checked before truncation)
+     Fix128 -> Fix64               a value strictly between Fix64.max and Fix64.max + 10^-8, or strictly between
+                                   Fix64.min - 10^-8 and Fix64.min (range checked before truncation)
      UFix128 -> Fix64              value strictly between Fix64.max and Fix64.max + 10^-8
      Fix128 -> UFix64              value strictly between -10^-8 and 0 (truncates to 0, reported as underflow),
                                    or strictly between UFix64.max and UFix64.max + 10^-8
@@ -40,9 +39,8 @@ Proof. unfold n_in_range; simpl. tauto. Qed.
      integer kinds -> Fix64        value below -2^63 (reported as overflow instead of underflow) *)
 Definition conv_defect (s t : nkind) (x : Z) : Prop :=
   match s, t with
-  | NFix128, NI _ => x < 0 /\ x mod e24 <> 0
   | NFix128, NFix64 =>
-      (x < 0 /\ x mod e16 <> 0) \/ max_int64 * e16 < x < (max_int64 + 1) * e16
+      max_int64 * e16 < x < (max_int64 + 1) * e16 \/ (min_int64 - 1) * e16 < x < min_int64 * e16
   | NUFix128, NFix64 => max_int64 * e16 < x < (max_int64 + 1) * e16
   | NFix128, NUFix64 =>
       - e16 < x < 0 \/ max_uint64 * e16 < x < (max_uint64 + 1) * e16
@@ -87,7 +85,7 @@ Proof.
   - apply (proj1 (nin_ufix64 _)) in Hr. consts. brk; try lia; try reflexivity.
     rewrite wrap_s64_id by lia. f_equal. lia.
   - apply (proj1 (nin_fix128 _)) in Hr. simpl in Hd. unfold fix128_bigint_to_fix64. consts.
-    assert (G1: x < 0 -> x mod 10000000000000000 = 0) by lia.
+    assert (G1: ~ ((-9223372036854775808 - 1) * 10000000000000000 < x < -9223372036854775808 * 10000000000000000)) by lia.
     assert (G2: ~ (9223372036854775807 * 10000000000000000 < x < (9223372036854775807 + 1) * 10000000000000000)) by lia.
     brk; try lia; try reflexivity.
     rewrite big_int64_id' by lia. f_equal. lia.
@@ -161,8 +159,7 @@ Theorem conv_model_correct s t x :
   conv_model s t x = spec_conv s t x.
 Proof.
   intros Hs Ht Hr Hd. destruct t as [k| | | |].
-  - apply int_target_correct; try assumption.
-    intros [-> [H1 H2]]. apply Hd. simpl. split; assumption.
+  - apply int_target_correct; assumption.
   - apply conv_fix64_correct; assumption.
   - apply conv_ufix64_correct; assumption.
   - apply conv_fix128_correct; assumption.
@@ -172,7 +169,7 @@ Qed.
 (* pairs that have no defect class at all *)
 Definition defect_free_pair (s t : nkind) : Prop :=
   match s, t with
-  | NFix128, (NI _ | NFix64 | NUFix64) => False
+  | NFix128, (NFix64 | NUFix64) => False
   | NUFix128, (NFix64 | NUFix64) => False
   | NI (KSigned n), NFix64 => n <= 64
   | NI KInt, NFix64 => False
